@@ -16,6 +16,18 @@ CLAIMS = {
     "C02": ("property-based testing (rapid): generated worlds with layout stress, every query at every character boundary, independent line/column recomputation over every emitted range",
             "Generated-input search with an exact validity predicate: every hcl.Range reachable from every query result must name a file of the reported path, satisfy 0 <= start <= end <= len and carry the line/column that an independent recomputation (newline count + grapheme clusters) assigns to its byte offsets.",
             "4/C02", TRUST + " Ranges inside top-level items whose parser AST is itself inconsistent (unterminated calls) are attributed upstream and not judged; cursors are placed on character boundaries only."),
+    "C03": ("property-based testing (rapid), metamorphic: repeat / after-history / fresh-world equality of canonical results",
+            "Metamorphic generated-input search: the same query must render identically across repetitions on one decoder (Go re-randomises map iteration per range statement), after an arbitrary history of other queries, and on freshly rebuilt worlds; wide bodies (>= 13 entries) defeat the accidental stability of small sorts.",
+            "4/C03", TRUST + " An order dependence that needs a rare map-iteration order can be missed; the repetition count is the knob."),
+    "C04": ("property-based testing (rapid), history-based: deep snapshot of all caller-supplied data compared after every query of a generated history",
+            "Generated call histories against a deep structural snapshot (unexported fields, slice spare capacity, pointer graph) of every PathContext and the DecoderContext; any difference after any step is a violation.",
+            "4/C04", TRUST + " Writes that store identical content are invisible to a snapshot (they are covered by the race detector in C05)."),
+    "C05": ("stress property-based testing under the Go race detector (rapid-generated worlds and query multisets; sequential-vs-concurrent differential)",
+            "Generated worlds and query lists are executed sequentially and then on 4-32 goroutines sharing PathReader/PathContext/schema; the binary is built with -race, every concurrent result must equal the sequential one and the snapshot must be unchanged. Exploration: the harness does not control the scheduler.",
+            "4/C05", TRUST + " Only interleavings that actually occur are observed; the race detector is precise for those and silent about others."),
+    "C17": ("property-based testing (rapid) with a reflection-driven populator over the struct definitions; equality + aliasing (scramble) oracle",
+            "Every type with a Copy method is populated field by field through reflection (future fields are covered automatically; an unpopulatable field fails the check), copied, compared structurally and probed for aliasing by scrambling every container of the copy (and of the original) while snapshotting the other side.",
+            "4/C17", "Constraints, addresses and cty values are exempt from the aliasing probe as the statement says. Exploration only."),
 }
 
 def main():
